@@ -17,11 +17,18 @@ if os.environ.get('MUT_LITERALS'):
     FILES = {'decomposed.go': ['C16', 'C17', 'C18'], 'exp.go': ['C16', 'C17'], 'int.go': ['C02', 'C03', 'C16'], 'arith.go': ['C01', 'C02', 'C03', 'C18'],
              'format.go': ['C06', 'C07'], 'rounding.go': ['C01', 'C02', 'C05', 'C08'], 'convert.go': ['C09', 'C10'], 'compare.go': ['C04'], 'compose.go': ['C14'],
              'decimal.go': ['C11', 'C19'], 'scan.go': ['C05'], 'json.go': ['C13'], 'payload.go': ['C15']}
+if os.environ.get('MUT_EXTRA'):
+    # second pass over the survivors of the first: the properties that use the file less directly
+    FILES = {'decomposed.go': ['C15'], 'exp.go': ['C15', 'C18', 'C19'], 'int.go': ['C01', 'C05', 'C07', 'C14', 'C17'], 'arith.go': ['C15', 'C19', 'C20'],
+             'format.go': ['C13', 'C19'], 'rounding.go': ['C11', 'C14', 'C19'], 'convert.go': ['C19', 'C15'], 'compare.go': ['C19', 'C15', 'C08'], 'compose.go': ['C12', 'C19'],
+             'decimal.go': ['C15', 'C08', 'C12'], 'scan.go': ['C13', 'C06'], 'json.go': ['C06'], 'payload.go': ['C19']}
 if os.environ.get('MUT_FILES'):
     FILES = {f: p for f, p in FILES.items() if f in os.environ['MUT_FILES'].split(',')}
 FLIP = {'<': '<=', '<=': '<', '>': '>=', '>=': '>'}
 env = dict(os.environ, VERIF_REGDIR='/tmp/mutreg', GOFLAGS='-mod=mod', GOPROXY='off', GOSUMDB='off', GOTOOLCHAIN='local')
 only = sys.argv[1:]
+if os.environ.get('MUT_SITES'):
+    only = open(os.environ['MUT_SITES']).read().split()
 rows = []
 for f, props in FILES.items():
     path = REPO + '/' + f
